@@ -18,7 +18,9 @@ elapsed.  What is *not* controlled on the live side is everything the kernel doe
 delivery, death, zombies, reparenting, waitpid, /proc.  The behaviour knobs of the scenario are rendered as follows:
   term obey d / ignore   real signal handlers of the worker (dies by the signal after d ms / SIG_IGN)
   kill_lat 0             the daemon's SIGKILL is delivered at once and the process is dead before kill() returns
-  kill_lat > 0           the SIGKILL is delivered DEFER_S later (the process is still alive when kill() returns)
+  kill_lat > 0           the SIGKILL is delivered late: the process stays alive until the daemon next sleeps (blocking
+                         time.sleep), a timer fires or the run settles — exactly the points at which virtual time advances in
+                         the simulated run — and then dies by SIGKILL whatever it was sent meanwhile
   kids / kid_term        real forked children of the worker
   exec_fail              argv[0] does not exist: the real fork + failed exec path of subprocess
   spawn_ms               ignored (the real start-up takes what it takes)
@@ -46,9 +48,9 @@ from harness.sim import Blocked, enc                         # noqa: E402
 HERE = os.path.dirname(os.path.abspath(__file__))
 WORKER = os.path.join(HERE, "live_worker.py")
 TAGVAR = "VERIF_LIVE_TAG"
-DEFER_S = 0.03            # delivery latency of a daemon SIGKILL to a worker whose behaviour says kill_lat > 0
+DEFER_S = 0.002           # least delivery latency of a daemon SIGKILL to a worker whose behaviour says kill_lat > 0
 MAX_WAKES = 60            # timers fired per settle at most (both sides)
-ADV_MS = 50               # sim: virtual time granted after a settle / outside kill for pending deaths to resolve
+ADV_MS = 150              # sim: virtual time granted after a settle / outside kill for pending deaths to resolve (> any obey delay)
 READY_S = 6.0             # a worker must have its handlers installed within this time
 DEAD_S = 3.0              # a process that must die has to be dead within this time
 SETTLE_S = 8.0
@@ -162,12 +164,16 @@ def canon(lines, probe):
     for v in sk.values():
         v.sort()
     live, kids, zomb = {}, {}, 0
+    listed = set(p[0] for w in probe["watchers"] for p in w["procs"])
     for pid, st in probe["states"].items():
         inf = pi[pid]
         if inf["kind"] == "w":
             if st == "r":
                 live[inf["name"]] = live.get(inf["name"], 0) + 1
-            elif st == "z":
+            elif st == "z" and pid in listed:
+                # only zombies a watcher still lists: the wait status of a worker that no watcher tracks any more is
+                # collected by CPython's subprocess module whenever the Popen object happens to be garbage-collected
+                # (Popen.__del__) or the next Popen is created (subprocess._cleanup) — docs/LIVE.md, D2
                 zomb += 1
         elif st == "r":
             kids[inf["name"]] = kids.get(inf["name"], 0) + 1
@@ -386,6 +392,7 @@ class LiveKernel(object):
         self.expect_dead = set()
         self.real_kill = os.kill
         self.inconclusive = None
+        self.reaped = set()          # pids whose wait status has been collected
 
     # -- bookkeeping
     def out(self, line):
@@ -441,7 +448,6 @@ class LiveKernel(object):
         if pid not in self.bh or pid <= 0:
             self.out("o sig-foreign %d %d" % (pid, sig))
             raise ProcessLookupError(errno.ESRCH, "not a process of this scenario")
-        self.deliver()
         st = self.state(pid)
         self.out("o sig %d %d %s" % (pid, int(sig), st))
         if st == "g":
@@ -449,6 +455,10 @@ class LiveKernel(object):
         if sig == 0:
             return self.real_kill(pid, 0)
         b = self.bh[pid]
+        if any(d[1] == pid for d in self.deferred):
+            # a SIGKILL is on its way (kill_lat > 0, a few ms in the simulated run): nothing the process could still do about
+            # another signal would happen before it — and DEFER_S must not give it the time
+            return None
         if sig == signal.SIGKILL:
             if st != "r":
                 return self.real_kill(pid, sig)
@@ -468,7 +478,7 @@ class LiveKernel(object):
         """a signal from outside the daemon (xkill)"""
         st = self.state(pid)
         self.out("o sig %d %d %sx" % (pid, int(sig), st))
-        if st == "g":
+        if st == "g" or any(d[1] == pid for d in self.deferred):
             return
         try:
             self.real_kill(pid, sig)
@@ -588,9 +598,9 @@ def make_live_popen(k):
         def poll(self):
             sp = object.__getattribute__(self, "_Popen__subproc")
             before = sp.returncode
-            k.deliver()
             rc = sp.poll()
-            if before is None and rc is not None:
+            if before is None and rc is not None and self.pid not in k.reaped:     # else: ECHILD, subprocess says 0
+                k.reaped.add(self.pid)
                 k.out("o reap %d %d" % (self.pid, (-rc) if rc < 0 else (rc << 8)))
             return rc
 
@@ -605,9 +615,9 @@ class _LiveOs(object):
         return getattr(os, name)
 
     def waitpid(self, pid, flags):
-        self._k.deliver()
         r = os.waitpid(pid, flags)
         if r[0]:
+            self._k.reaped.add(r[0])
             self._k.out("o reap %d %d" % r)
         return r
 
